@@ -85,6 +85,8 @@ class Ctx:
 
 
 def write_replay(pid, case, flags, reason, seed, tier, extra=None) -> str:
+    if os.environ.get("VERIF_NO_EVIDENCE"):
+        core.REPLAYS = "/tmp/verif_mutant_replays"
     os.makedirs(core.REPLAYS, exist_ok=True)
     body = {"property": pid, "reason": reason, "seed": seed, "tier": tier, "cid": case.get("cid"),
             "stream": case.get("stream"), "flags[A model=impl, B spec=impl, C monitors, S selfcheck]": flags,
@@ -317,7 +319,9 @@ def main():
         "violations": len(violations),
     }
     os.makedirs(core.EVIDENCE, exist_ok=True)
-    with open(os.path.join(core.EVIDENCE, f"{pid}.json"), "w") as fh:
+    evdir = "/tmp/verif_mutant_evidence" if os.environ.get("VERIF_NO_EVIDENCE") else core.EVIDENCE   # mutation drills only
+    os.makedirs(evdir, exist_ok=True)
+    with open(os.path.join(evdir, f"{pid}.json"), "w") as fh:
         json.dump(ev, fh, indent=1, default=str)
     ctx.runner.cleanup()
 
